@@ -132,3 +132,66 @@ func vAssertHalfwayFits(n int, man uint64, e2 int, id string) {
 		vFailures = append(vFailures, id)
 	}
 }
+
+func vAssertScanExpo(lit []byte, mant uint64, exp int, neg bool, trunc bool, id string) {
+	if exp > 347 || exp < -348 {
+		// beyond the fast tiers' table (possibly capped): the true value must be beyond it on the same side
+		x, vneg := vLitRat(lit)
+		if x == nil {
+			vFailures = append(vFailures, id)
+			return
+		}
+		ten348 := new(big.Rat).SetInt(new(big.Int).Exp(big.NewInt(10), big.NewInt(348), nil))
+		ok := neg == vneg
+		if mant != 0 {
+			if exp > 0 {
+				lim := new(big.Rat).SetInt(new(big.Int).SetUint64(mant))
+				lim.Mul(lim, ten348)
+				ok = ok && x.Cmp(lim) >= 0
+			} else {
+				lim := new(big.Rat).SetInt(new(big.Int).Add(new(big.Int).SetUint64(mant), big.NewInt(1)))
+				lim.Quo(lim, ten348)
+				ok = ok && x.Cmp(lim) < 0
+			}
+		}
+		if !ok {
+			vFailures = append(vFailures, id)
+		}
+		return
+	}
+	vAssertScanValue(lit, mant, exp, neg, trunc, id)
+}
+
+func vAssertSetExpo(lit []byte, d *decimal, id string) {
+	x, vneg := vLitRat(lit)
+	if x == nil {
+		vFailures = append(vFailures, id)
+		return
+	}
+	if d.nd == 0 {
+		if x.Sign() != 0 || d.neg != vneg {
+			vFailures = append(vFailures, id)
+		}
+		return
+	}
+	pow := func(e int64) *big.Rat {
+		r := new(big.Rat).SetInt(new(big.Int).Exp(big.NewInt(10), big.NewInt(int64(abs(int(e)))), nil))
+		if e < 0 {
+			r.Inv(r)
+		}
+		return r
+	}
+	if d.dp > 310 {
+		if d.neg != vneg || x.Cmp(pow(310)) < 0 {
+			vFailures = append(vFailures, id)
+		}
+		return
+	}
+	if d.dp < -330 {
+		if d.neg != vneg || x.Cmp(pow(-331)) >= 0 {
+			vFailures = append(vFailures, id)
+		}
+		return
+	}
+	vAssertSetValue(lit, d, id)
+}
